@@ -216,6 +216,41 @@ func Mat(k MatKind, b []byte, readerKind int) (res Result) {
 		if k.Stream && n > len(b) {
 			res.add(k.Routine+"|error|byte-count", "%s reports %d bytes read from a %d-byte stream", k.Routine, n, len(b))
 		}
+		// The receiver after a rejected decode: self-consistent (a stream
+		// decoder may have sized it already), and usable again after Reset.
+		var incons string
+		if k.Vec {
+			incons = vecConsistent(&v)
+		} else {
+			incons = denseConsistent(&d)
+		}
+		if incons != "" {
+			res.add(k.Routine+"|rejected-input|receiver-inconsistent", "after %s returned %v the receiver is inconsistent: %s", k.Routine, err, incons)
+			return res
+		}
+		good := matMsg(2, 1, 1.5, -2.5)
+		res.Calls++
+		if p := try(func() {
+			var e2 error
+			if k.Vec {
+				v.Reset()
+				e2 = v.UnmarshalBinary(good)
+				if e2 == nil && (v.Len() != 2 || v.AtVec(0) != 1.5 || v.AtVec(1) != -2.5) {
+					e2 = fmt.Errorf("wrong content %v", mat.Formatted(&v))
+				}
+			} else {
+				d.Reset()
+				e2 = d.UnmarshalBinary(good)
+				if r, c := d.Dims(); e2 == nil && (r != 2 || c != 1 || d.At(0, 0) != 1.5 || d.At(1, 0) != -2.5) {
+					e2 = fmt.Errorf("wrong content %v", mat.Formatted(&d))
+				}
+			}
+			if e2 != nil {
+				res.add(k.Routine+"|rejected-input|receiver-unusable-after-reset", "after %s returned %v and Reset, decoding a valid 2x1 message into the receiver: %v", k.Routine, err, e2)
+			}
+		}); p != "" {
+			res.add(k.Routine+"|rejected-input|receiver-unusable-after-reset", "after %s returned %v, Reset and decoding a valid message panicked: %s", k.Routine, err, p)
+		}
 		return res
 	}
 	res.Accepted = true
